@@ -713,7 +713,7 @@ def run_exact(case):
         res["msg"] = str(e)[:200]
         res["x_deser"] = {"err": "InvalidStructureErr" if type(e).__name__ == "InvalidStructureErr" else "TypeError" if isinstance(e, TypeError)
                           else "ValueError" if isinstance(e, ValueError) else type(e).__name__, "msg": str(e)[:200]}
-    xcls = xdecl_class(case, nested=nested)
+    xcls = xdecl_class(dict(case, compact=None), nested=nested)     # (the C06 stream builds the plain class)
     if xcls is not None:
         try:
             from .. import dump
@@ -850,7 +850,9 @@ def xdecl_shape(shape, leafdecl):
         return {"k": "mapStr", "x": inner}
     if tag == "tup2":
         return {"k": "tuplePos", "xs": [inner, {"k": "base", "f": {"k": "integer"}}]}
-    return None         # AnyOf[leaf, Integer]: not in the model
+    if tag == "anyint":
+        return {"k": "anyOf", "xs": [inner, {"k": "base", "f": {"k": "integer"}}]}
+    return None
 
 
 def xdecl_class(case, nested=False):
@@ -859,7 +861,10 @@ def xdecl_class(case, nested=False):
     fields = []
     for f in case["fields"]:
         leafdecl = xdecl_leaf(f["leaf"])
-        d = xdecl_shape(SHAPES[f["wrap"]], leafdecl) if leafdecl is not None else None
+        if leafdecl is not None and f["wrap"] == "optional-union":      # ONE AnyOf of three options
+            d = {"k": "anyOf", "xs": [leafdecl, {"k": "base", "f": {"k": "integer"}}, {"k": "base", "f": {"k": "noneF"}}]}
+        else:
+            d = xdecl_shape(SHAPES[f["wrap"]], leafdecl) if leafdecl is not None else None
         if d is None:
             return None
         fields.append([f["name"], d])
